@@ -2,6 +2,7 @@ package ls
 
 import (
 	"context"
+	"errors"
 	"fmt"
 	"strings"
 	"unicode/utf8"
@@ -115,7 +116,27 @@ func (s *Server) typecheck(ctx context.Context, uri lsp.DocumentURI, version uin
 	var res []lsp.Diagnostic
 
 	_, err := compiler.Compile(ctx, uri.Filename(), content, compiler.Params{CheckOnly: true, Verbose: true})
+	var se tm.SyntaxError
+	if errors.As(err, &se) {
+		// Syntax errors are returned without a source range, point at the offending token.
+		lineStart := strings.LastIndexByte(content[:se.Offset], '\n') + 1
+		err = &status.Error{
+			Origin: status.SourceRange{
+				Filename:  uri.Filename(),
+				Offset:    se.Offset,
+				EndOffset: se.Endoffset,
+				Line:      strings.Count(content[:se.Offset], "\n") + 1,
+				Column:    se.Offset - lineStart + 1,
+			},
+			Msg: se.Error(),
+		}
+	}
 	for _, p := range status.FromError(err) {
+		if p.Origin.Line == 0 {
+			// Errors that do not originate in the source text (cancellation, I/O) are
+			// reported at the start of the document.
+			p.Origin.Line, p.Origin.Column = 1, 1
+		}
 		rng, _, _ := strings.Cut(content[p.Origin.Offset:p.Origin.EndOffset], "\n")
 
 		// LSP positions are expressed in UTF-16 code units, while p.Origin.Column is in bytes.
